@@ -794,7 +794,7 @@ def run(ctx, extra_cases=()):
             try: run_cases(ctx, env2, shape_cases(ctx.rng, ctx.scale(6, 40), prime_null), 'null-shape:primed-' + ('null' if prime_null else 'value'))
             finally: env2.close()
         run_cases(ctx, env, template_cases(ctx.rng, ctx.scale(12, 80)), 'template')
-        n = ctx.scale(350, 8000)
+        n = ctx.scale(350, 6000)
         for chunk in range(0, n, 500):
             run_cases(ctx, env, [gen_case(ctx.rng, chunk + i) for i in range(min(500, n - chunk))], 'random')
     finally:
